@@ -74,3 +74,24 @@ pub fn queue_new(idx: u16, indirect: bool, event_idx: bool, access_platform: boo
         f(idx, indirect, event_idx, access_platform);
     }
 }
+
+static HYP_IO_BACKEND: AtomicUsize = AtomicUsize::new(0);
+
+/// Installs (or removes) the back end that serves the x86-64 pKVM IO hypercalls in place of `vmcall`:
+/// it is called with (`is_write`, physical address, size in bytes, data) for every `hyp_io_read` /
+/// `hyp_io_write` and returns the value read (ignored for a write).
+pub fn set_hyp_io_backend(f: Option<fn(bool, u64, usize, u64) -> u64>) {
+    HYP_IO_BACKEND.store(f.map(|f| f as usize).unwrap_or(0), Ordering::SeqCst);
+}
+
+/// Hands an IO hypercall to the back end, if one is installed.
+pub fn hyp_io(write: bool, address: u64, size: usize, data: u64) -> Option<u64> {
+    let p = HYP_IO_BACKEND.load(Ordering::SeqCst);
+    if p == 0 {
+        return None;
+    }
+    // SAFETY: the only non-zero values ever stored are `fn(bool, u64, usize, u64) -> u64` pointers.
+    let f: fn(bool, u64, usize, u64) -> u64 =
+        unsafe { core::mem::transmute::<usize, fn(bool, u64, usize, u64) -> u64>(p) };
+    Some(f(write, address, size, data))
+}
